@@ -97,7 +97,7 @@ Qed.
 End Emit.
 
 Require Import SC3.gen.Gen_opcodes SC3.proofs.C01_inv3 SC3.proofs.C01_built SC3.proofs.C01_opt SC3.proofs.C01_topo
-               SC3.proofs.C01_topo2 SC3.proofs.C01_compile.
+               SC3.proofs.C01_topo2 SC3.proofs.C01_cov SC3.proofs.C01_compile.
 
 Lemma Before_pos : forall out g c, NoDup out -> Before out g c ->
   exists i j, pos c out = Some i /\ pos g out = Some j /\ j < i.
@@ -115,11 +115,6 @@ Proof.
   rewrite NoDup_nth_error in Hnd. assert (j = j') by (apply Hnd; [apply nth_error_Some; congruence | congruence]). lia.
 Qed.
 
-(* every input that is not a UGen object (FFT-like chains) is one of the unit's width-first antecedents *)
-Definition Covered (s : st) : Prop :=
-  forall c C v ch V, In c (live s) -> get_unit s c = Some C -> In (O v ch) (ins C) -> get_unit s v = Some V ->
-  isugen V = false -> In v (match wfa C with Some l => l | None => [] end).
-
 Definition entry_s (I : interp) (s : st) (f : nat -> row) (u : nat) : list obs := obs_of I s f (Some u).
 
 Lemma obs_state_live : forall I s f, obs_state I s f = flat_map (entry_s I s f) (live s).
@@ -129,10 +124,10 @@ Proof.
 Qed.
 
 Theorem emit_sem : forall I p s1 s2f s3 s2 out g f,
-  Compiled p s1 s2f s3 s2 out g -> Valid I s2 [] f -> Covered s2f ->
+  Compiled p s1 s2f s3 s2 out g -> Valid I s2 [] f ->
   Permutation (obs_graph I g) (obs_state I s2 f).
 Proof.
-  intros I p s1 s2f s3 s2 out g f [Hb B HI2 R [rho O] (C3 & P3 & B3) U3 ->] V Cov.
+  intros I p s1 s2f s3 s2 out g f [Hb B HI2 R [rho O] (C3 & P3 & B3) U3 -> _ Cov _ _] V.
   destruct R as (Hl & Hrw & _ & _ & Hg2).
   destruct O as [Orw Ouid [Och Ond] Ounit Oins Owfa].
   assert (Hnd : NoDup out) by (eapply Permutation_NoDup; [symmetry; exact P3 | exact Ond]).
